@@ -44,7 +44,7 @@ def _activated_factory(p: Any, ex_props: dict) -> Any:
     return construct, init
 
 
-def consequent_semantics(check: Check, rule: str = "M-sem", aspects: tuple[str, ...] = ("terms", "degree", "implication", "no-internal-error", "degree-carried")) -> None:
+def consequent_semantics(check: Check, rule: str = "M-sem", aspects: tuple[str, ...] = ("terms", "degree", "implication", "no-internal-error", "degree-carried", "rule-untouched")) -> None:
     p = check.program
     fn = p.func("Consequent.modify")
     check.analysed(fn)
@@ -93,6 +93,7 @@ def consequent_semantics(check: Check, rule: str = "M-sem", aspects: tuple[str, 
             ex, _ = new_exec(decide)
             what = "conclusions " + " and ".join(f"{nm}{'' if (en_a if nm == 'A' else en_b) else ' (disabled)'} is {' '.join(h)}{' ' if h else ''}t{j}"
                                                  for j, (nm, h) in enumerate(zip(shape, hs)))
+            before = [(c_, c_.fields["variable"], c_.fields["term"], list(c_.fields["hedges"])) for c_ in concl]
             try:
                 ex.block(list(node.body), {params[0]: me, params[1]: Sym("d"), params[2]: impl})
             except _Return:
@@ -100,6 +101,14 @@ def consequent_semantics(check: Check, rule: str = "M-sem", aspects: tuple[str, 
             except (Raised, Internal) as err:
                 bad.setdefault("no-internal-error", (f"{what}: the method ends with {err.cls}", getattr(err, "node", None)))
                 return
+            # triggering a rule reads its conclusions, it does not edit them: the next activation must find the same rule
+            now = me.fields.get("conclusions")
+            same = isinstance(now, list) and len(now) == len(before) and all(
+                c_ is b_[0] and c_.fields.get("variable") is b_[1] and c_.fields.get("term") is b_[2] and isinstance(c_.fields.get("hedges"), list)
+                and len(c_.fields["hedges"]) == len(b_[3]) and all(x is y for x, y in zip(c_.fields["hedges"], b_[3])) for c_, b_ in zip(now, before))
+            if not same:
+                bad.setdefault("rule-untouched", (f"{what}: after modify() the rule's own conclusions are no longer what they were (a conclusion, its variable, term or list of "
+                                                  "hedges was changed): the next time the rule fires it concludes something else", None))
             # expected
             want: dict[str, list[tuple]] = {"A": [], "B": []}
             carried: dict[str, list[tuple]] = {"A": [], "B": []}
@@ -145,6 +154,7 @@ def consequent_semantics(check: Check, rule: str = "M-sem", aspects: tuple[str, 
     for aspect, good in (("terms", "one activated term per conclusion on an enabled variable, in order of the conclusions; nothing for a disabled variable"),
                          ("degree", "each activated term carries the rule's degree modified by its own conclusion's hedges (innermost first), stored once"),
                          ("implication", "each activated term carries the implication operator handed in"),
+                         ("rule-untouched", "modify() leaves the rule's conclusions (variables, terms, hedges) as they were"),
                          ("no-internal-error", "the method ends without an exception of its own")):
         if aspect not in aspects:
             continue
